@@ -132,6 +132,12 @@ class AccIO:
     def getvalue(self):
         return AbsParts(list(self.parts))
 
+    def tell(self):
+        tot = z3.IntVal(0)
+        for p in self.parts:
+            tot = tot + (p.b - p.a)
+        return mki(z3.simplify(tot))
+
     def close(self):
         self.closed = True
 
@@ -147,6 +153,12 @@ class AbsParts:
 
     def __init__(self, parts):
         self.parts = parts
+
+    def slen(self):
+        tot = z3.IntVal(0)
+        for p in self.parts:
+            tot = tot + (p.b - p.a)
+        return mki(z3.simplify(tot))
 
     @property
     def __class__(self):
